@@ -291,10 +291,10 @@ StmtSeq == << [k |-> "comment", text |-> " generated"],
               Bind("d", P("x")),
               [k |-> "pool", name |-> "p", depth |-> 3],
               Rule("r", << <<"command", <<Lit("run "), Var("out")>> >>, <<"pool", P("p")>> >>),
-              Build(<<PP("a")>>, <<>>, "r", <<PP("s")>>, <<Path("", <<Var("d"), Lit("0")>>)>>, <<>>, <<>>, <<>>),
+              Build(<<PP("a")>>, <<>>, "r", <<PP("s")>>, <<Path("", <<Var("d"), Lit(".0")>>)>>, <<>>, <<>>, <<>>),
               [k |-> "comment", text |-> "second"],
               Bind("d", P("y")),
-              Build(<<PP("b")>>, <<PP("b2")>>, "r", <<PP("a")>>, <<Path("", <<Var("d"), Lit("in")>>)>>,
+              Build(<<PP("b")>>, <<PP("b2")>>, "r", <<PP("a")>>, <<Path("", <<Var("d"), Lit(".in")>>)>>,
                     <<PP("s2")>>, <<PP("a")>>, <<>>),
               Build(<<PP("all")>>, <<>>, "phony", <<PP("b"), Path("", <<Lit("q"), Var("d")>>)>>, <<>>, <<>>, <<>>, <<>>),
               [k |-> "default", paths |-> <<PP("all")>>],
